@@ -57,4 +57,45 @@ static inline _Bool sp_exprs_no_reified(struct umap_str_lit m, U_t maxn)
     }
   return 1;
 }
+/* the cache may hold reified expressions, but none that mentions a variable of the arguments: the request cannot hit the
+ * cache (what happens on a hit is the business of the two-request lemma jobs).  Keys strictly increasing, at most maxn. */
+static inline _Bool sp_key_is_reified(struct cm_string k)
+{
+  if (k.n < 1) return 0;
+  cm_tok t = k.t[0];
+  return t == XT_TOK_eq || t == XT_TOK_and || t == XT_TOK_or || t == XT_TOK_amo || t == XT_TOK_xor;
+}
+static inline _Bool sp_key_mentions(struct cm_string k, U_t v)
+{
+  for (U_t i = 0; i < CM_STR_CAP; i++) if (i < k.n && k.t[i] == (CM_TOK_NUM | (cm_tok)v)) return 1;
+  return 0;
+}
+static inline _Bool sp_exprs_shape(struct umap_str_lit m, U_t maxn)
+{
+  if (m.n > maxn) return 0;
+  for (U_t i = 0; i < XT_EXPRS_CAP; i++)
+    if (i < m.n)
+    {
+      if (m.e[i].first.n < 1 || m.e[i].first.n > CM_STR_CAP) return 0;
+      if (!sp_key_is_reified(m.e[i].first) && m.e[i].first.n > 2) return 0;
+      if (i + 1 < m.n && !sps_lt(m.e[i].first, m.e[i + 1].first)) return 0;
+    }
+  return 1;
+}
+static inline _Bool sp_exprs_fresh_for_lits(struct umap_str_lit m, U_t maxn, struct vec_lit ls)
+{
+  if (!sp_exprs_shape(m, maxn)) return 0;
+  for (U_t i = 0; i < XT_EXPRS_CAP; i++)
+    if (i < m.n && sp_key_is_reified(m.e[i].first))
+      for (U_t j = 0; j < XT_MAXLITS; j++)
+        if (j < ls.n && sp_key_mentions(m.e[i].first, sp_var(ls.e[j]))) return 0;
+  return 1;
+}
+static inline _Bool sp_exprs_fresh_for_2(struct umap_str_lit m, U_t maxn, struct smt_lit a, struct smt_lit b)
+{
+  if (!sp_exprs_shape(m, maxn)) return 0;
+  for (U_t i = 0; i < XT_EXPRS_CAP; i++)
+    if (i < m.n && sp_key_is_reified(m.e[i].first) && (sp_key_mentions(m.e[i].first, sp_var(a)) || sp_key_mentions(m.e[i].first, sp_var(b)))) return 0;
+  return 1;
+}
 #endif
